@@ -213,6 +213,7 @@ struct Lower {
       if (!haveInit && VD->isStaticLocal()) throw Unsupported{"static local with dynamic initialisation: " + VD->getQualifiedNameAsString()};
     } else if (VD->isStaticLocal() && !VD->hasInit()) { init = "{0}"; haveInit = true; if (!T->isRecordType() && !T->isArrayType()) init = "0"; }
     if (haveInit) globalDefs += declare(T, g) + " = " + init + ";\n";
+    else if (!init.empty()) globalDefs += "/* no constant initialiser emitted for " + g + ": " + init + " */\n";
     globalJson.push_back("{\"name\": \"" + g + "\", \"qualified\": \"" + jsonEsc(VD->getQualifiedNameAsString()) + "\", \"const\": " + (isConst ? "true" : "false") + ", \"defined\": " + (haveInit ? "true" : "false") + ", \"type\": \"" + jsonEsc(T.getAsString()) + "\"}");
     return T->isReferenceType() ? "(*" + g + ")" : g;
   }
